@@ -1783,7 +1783,7 @@ def search_embed_disagreements(ck: Check) -> None:
     keys = names_of_sequences(seqs)
     for m in mods:
         keys += [x for x in m["imports"] + [c for _, c, _ in m["models"]] if x not in keys and x.isascii()]
-    keys = keys[:7]
+    keys = list(dict.fromkeys(keys))[:7]  # a key occurs once in a container
     if len(keys) >= 2:
         campaign_e2e_exhaustive(ck, keys, min(3, len(keys)), " [search: keys of the disagreeing sequences]")
         if ck.failures:
@@ -1842,6 +1842,9 @@ def run(ck: Check) -> None:
         "reserved/loaded state observed at the first call of _resolve_unparsed_json_pointer (the per-document prelude is not modelled for document sets)",
         "Dcg/Model/ResolverDedupe restates the name/key logic of Parser.__delete_duplicate_models; the key (render(class_name=duplicate_class_name), imports) is a parameter "
         "whose value the harness takes from the real objects; the root-model branch of the pass (a root-type model that only wraps a reference to a model of its own name) is outside the model",
+        "modular output of ONE document (dotted definition keys `pkg.Pet`, `pkg.sub.Pet`, `other.Pet` next to plain keys; module names pkg / pkg.sub / other only): "
+        "the written package is imported for real, so the module-level reference graph of the family is acyclic (package root -> pkg -> pkg.sub -> other; a cycle of modules is a circular import, "
+        "which C06 does not speak about); references inside a module are unrestricted; msgspec / TypedDict kinds are not in this campaign",
         "base-path contexts: directories below the resolver's _base_path as segment lists, POSIX paths without symlinks; a path that leaves _base_path is answered `outside`, "
         "a current directory outside _base_path (or None) ends the modelled region; `#…` references and URLs are outside this part of the model",
     ]
@@ -1859,6 +1862,7 @@ def run(ck: Check) -> None:
         "collide": "distinct documents (keys in order, content per key, container, kind) on which the oracle passed",
         "dedupe-pass": "distinct model sequences in which the real pass dropped at least one model",
         "dirs": "distinct directory trees (files, edges, entry, kind) on which the oracle passed",
+        "dotted": "distinct documents with dotted keys (keys in order, edges, container, kind) on which the oracle passed",
         "basepath": "distinct operation sequences in which one reference string got different answers in different directories",
         "e2e": "distinct documents (keys in order, edges, container, kind) on which the oracle passed; failures matching a known finding are counted in known_finding_hits_in_campaigns",
     }
@@ -1872,6 +1876,7 @@ def run(ck: Check) -> None:
     campaign_multidoc(ck, 200 if quick else 1500, exhaustive=not quick)
     c06_dirs.campaign_dirs(ck, 120 if quick else 1500)
     c06_dirs.campaign_basepath(ck, 300 if quick else 3000)
+    c06_dirs.campaign_dotted(ck, 60 if quick else 900, scope=not quick)
     # the systematic scope of the anchor-name family that the failing-input search enumerates is itself part of
     # the regular run (all of it in the thorough tier, a seeded sample of the names in the quick tier)
     campaign_e2e_anchor_scope(ck, [], "", budget_s=20.0 if quick else 120.0, sample=60 if quick else None)
@@ -1893,6 +1898,14 @@ def replay(ck: Check, path: str) -> int:
         if not ck.failures and not ck.disagreements:
             print("replay: model and implementation agree and the oracle does not fail on this input")
         return 1 if ck.failures or ck.disagreements else 0
+    if inp.get("dotted"):
+        camp = ck.campaign("replay")
+        c06_dirs.dotted_oracle(ck, camp, inp)
+        for f in ck.failures:
+            print("REPLAY-FAILS:", json.dumps(f.classification), f.observed[:300])
+        if not ck.failures:
+            print("replay: the oracle does not fail on this input" + (" (matches a known finding)" if ck.known_hits else ""))
+        return 1 if ck.failures else 0
     if inp.get("dirs"):
         camp = ck.campaign("replay")
         c06_dirs.dirs_oracle(ck, camp, inp)
